@@ -63,7 +63,10 @@
    "os/sleep" "blocks the thread" "ev/sleep" "only waits" "os/proc-kill" "could signal an unrelated process (pid reuse)"
    "ffi/call" "raw pointer call" "ffi/free" "raw pointer" "ffi/read" "raw pointer" "ffi/write" "raw pointer"
    "ffi/pointer-buffer" "raw pointer" "ffi/pointer-cfunction" "raw pointer" "ffi/malloc" "raw pointer"
-   "ffi/trampoline" "raw pointer"})
+   "ffi/trampoline" "raw pointer"
+   # this script's own definitions (the harness evaluates it in the core environment itself); `run-sweep` called from the sweep
+   # started a nested sweep that ran until its first event-loop wait
+   "run-sweep" "harness" "make-pre" "harness" "make-shapes" "harness" "P" "harness" "noop" "harness"})
 
 (defn run-sweep []
   (def shapes (make-shapes (or pre-main (make-pre))))
